@@ -603,6 +603,13 @@ class ZBox(StandIn):
     def __and__(self, o):
         return self if self.zone == o.zone else None
 
+    def __or__(self, o):                  # join of boxes (None | box = box)
+        if o is None or o.zone == self.zone:
+            return self
+        return ZBox("near+far")
+
+    __ror__ = __or__
+
     def __bool__(self):
         return True
 
